@@ -1,9 +1,11 @@
 import JwtModel.Gen.Fn
+import JwtModel.Gen.FnVal
 import JwtModel.Subject
 import JwtModel.Lists
 import JwtModel.Revocation
 import JwtModel.HashId
 import JwtModel.Validate
+import JwtModel.V1
 import JwtProofs.GoRt
 /-!
 # Tie theorems: the functions translated from Go on this run (`Gen/Fn.lean`) compute the hand-written model
@@ -527,5 +529,95 @@ theorem v2_permissionValidate (al dn : List Str) (vr : V2.T_ValidationResults) (
     | nil => intro st; simp
     | cons x xs ih => intro st; simp [ih, push_push]
   simp [V2.Permission_Validate, forRange, forRangeFrom_fold _ _ h1, forRangeFrom_fold _ _ h2, hf, push_push]
+
+/-! ## C09: the account- and export-level wrappers (fail-closed guards, allocation of the map) -/
+
+theorem v2_isRevoked_any (r : GoMap Str Int) (k : Str) (t : Int) :
+    V2.RevocationList_IsRevoked r k t = some (Rev.isRevoked ['*'] (mapEntries r) k t) := by
+  cases r with
+  | none => simp [v2_isRevoked_nil, mapEntries, Rev.isRevoked, Rev.geOpt, Rev.lookup]
+  | some m => simp [v2_isRevoked, mapEntries]
+
+/-- `AccountClaims.IsClaimRevoked`: a nil claim, a zero issue time or an empty subject is revoked -/
+theorem v2_acct_isClaimRevoked (a : V2.T_AccountClaims) (claim : Option V2.T_UserClaims) :
+    V2.AccountClaims_IsClaimRevoked a claim =
+      some (Rev.isClaimRevoked ['*'] [] (mapEntries a.f_Account.f_Revocations)
+        (claim.map fun c => (c.f_ClaimsData.f_Subject, c.f_ClaimsData.f_IssuedAt))) := by
+  unfold V2.AccountClaims_IsClaimRevoked V2.AccountClaims_isRevoked Rev.isClaimRevoked
+  cases claim with
+  | none => simp
+  | some c =>
+    by_cases h1 : c.f_ClaimsData.f_IssuedAt = 0 <;> by_cases h2 : c.f_ClaimsData.f_Subject = [] <;>
+      simp [h1, h2, v2_isRevoked_any]
+
+theorem v2_export_isClaimRevoked (e : V2.T_Export) (claim : Option V2.T_ActivationClaims) :
+    V2.Export_IsClaimRevoked e claim =
+      some (Rev.isClaimRevoked ['*'] [] (mapEntries e.f_Revocations)
+        (claim.map fun c => (c.f_ClaimsData.f_Subject, c.f_ClaimsData.f_IssuedAt))) := by
+  unfold V2.Export_IsClaimRevoked V2.Export_isRevoked Rev.isClaimRevoked
+  cases claim with
+  | none => simp
+  | some c =>
+    by_cases h1 : c.f_ClaimsData.f_IssuedAt = 0 <;> by_cases h2 : c.f_ClaimsData.f_Subject = [] <;>
+      simp [h1, h2, v2_isRevoked_any]
+
+/-- `AccountClaims.RevokeAt` allocates a nil map, then revokes: never panics -/
+theorem v2_acct_revokeAt (a : V2.T_AccountClaims) (k : Str) (t : Int) :
+    V2.AccountClaims_RevokeAt a k t =
+      some { a with f_Account := { a.f_Account with f_Revocations := some (Rev.revoke (mapEntries a.f_Account.f_Revocations) k t) } } := by
+  unfold V2.AccountClaims_RevokeAt
+  cases h : a.f_Account.f_Revocations with
+  | none => simp [h, v2_revoke, mapEntries]
+  | some m => simp [h, v2_revoke, mapEntries]
+
+theorem v2_acct_revoke_now (a : V2.T_AccountClaims) (k : Str) (now : Int) :
+    V2.AccountClaims_Revoke a k now = V2.AccountClaims_RevokeAt a k now := by
+  simp [V2.AccountClaims_Revoke]
+
+theorem v2_acct_clearRevocation (a : V2.T_AccountClaims) (k : Str) :
+    V2.AccountClaims_ClearRevocation a k =
+      some { a with f_Account := { a.f_Account with f_Revocations := a.f_Account.f_Revocations.map (Rev.clear · k) } } := by
+  unfold V2.AccountClaims_ClearRevocation
+  cases h : a.f_Account.f_Revocations with
+  | none => simp [h, v2_clear_nil]
+  | some m => simp [h, v2_clear]
+
+theorem v2_export_revokeAt (e : V2.T_Export) (k : Str) (t : Int) :
+    V2.Export_RevokeAt e k t = some { e with f_Revocations := some (Rev.revoke (mapEntries e.f_Revocations) k t) } := by
+  unfold V2.Export_RevokeAt
+  cases h : e.f_Revocations with
+  | none => simp [h, v2_revoke, mapEntries]
+  | some m => simp [h, v2_revoke, mapEntries]
+
+theorem v2_export_clearRevocation (e : V2.T_Export) (k : Str) :
+    V2.Export_ClearRevocation e k = some { e with f_Revocations := e.f_Revocations.map (Rev.clear · k) } := by
+  unfold V2.Export_ClearRevocation
+  cases h : e.f_Revocations with
+  | none => simp [h, v2_clear_nil]
+  | some m => simp [h, v2_clear]
+
+/-! ## C05 / C02: what a payload declares (`identifier.Kind`, `identifier.Version`), read through the struct tags -/
+
+theorem v2_identifier (id : Jwt.Val) :
+    V2.identifier_Kind (V2.T_identifier.ofVal id) =
+      some (if (id.field "type").asStr ≠ [] then (id.field "type").asStr else ((id.field "nats").field "type").asStr) ∧
+    V2.identifier_Version (V2.T_identifier.ofVal id) =
+      some (if (id.field "type").asStr ≠ [] then 1 else ((id.field "nats").field "version").asInt) := by
+  unfold V2.identifier_Kind V2.identifier_Version V2.T_identifier.ofVal V2.T_GenericFields.ofVal
+  by_cases h : (id.field "type").asStr = [] <;> simp [h]
+
+/-- the v1compat header test: type JWT (upper-cased) and exactly the legacy algorithm name -/
+theorem v1_headerValid (t a : Str) :
+    V1.Header_Valid { f_Type := t, f_Algorithm := a } = some (!Jwt.V1.headerValid { typ := t, alg := a }) := by
+  unfold V1.Header_Valid Jwt.V1.headerValid
+  simp only [Gen.V1.cTokenTypeJwt, Gen.V1.cAlgorithmNkey, bne, Bool.beq_eq_decide_eq]
+  generalize goLower a = x
+  generalize goLower t = y
+  by_cases h1 : ['j', 'w', 't'] = y
+  · subst h1
+    by_cases h3 : x = ['e', 'd', '2', '5', '5', '1', '9']
+    · subst h3; decide
+    · by_cases h4 : x = ['e', 'd', '2', '5', '5', '1', '9', '-', 'n', 'k', 'e', 'y'] <;> simp [h3, h4]
+  · simp [h1]
 
 end Jwt.FnTie
